@@ -108,6 +108,26 @@ def search(ctx):
         n = len(j['inputs'])
         ops = {g[0]: g[2] for g in j['gates']}
         users = {l: [u for u, o in ops.items() if l in o] for l in ops}
+        # the circuit's own input list as the argument (the accessor hands out the internal list)
+        if n >= 2 and k % 3 == 0:
+            from common import circ_from_json, circ_to_json
+            for side in ('true', 'false'):
+                ctx.case(json.dumps(['own_inputs', j['gates'], j['outputs'], side]))
+                try:
+                    c = circ_from_json(j)
+                    c.replace_inputs(c.inputs, []) if side == 'true' else c.replace_inputs([], c.inputs)
+                    r = circ_to_json(c)
+                except Exception as e:  # noqa: BLE001
+                    ctx.violation('replace_inputs.raises', f'replace_inputs(c.inputs) raised {err_name(e)}', input={'c': j, 'own_list': side})
+                    continue
+                col = ((1 << n) - 1) if side == 'true' else 0
+                want = [row[col] for row in base_tt['ok']]
+                got = tt(r)
+                if r['inputs'] != [] or got.get('ok') != want:
+                    ctx.violation('replace_inputs.cofactor', f'replace_inputs with the circuit\'s own input list ({side}): inputs left {r["inputs"]}, '
+                                  f'result {got}, cofactor {want}', input={'c': j, 'own_list': side})
+                else:
+                    ctx.count('replace_inputs:own_list')
         for steps in gen_calls(ctx, rng, j):
             st = steps[0]
             ctx.case(json.dumps(['s', j['gates'], j['outputs'], steps]), len(j['gates']) >= 3)
